@@ -1,6 +1,6 @@
 """C15: Range responses contain exactly the requested bytes (end to end through the real squid)."""
 import base64, concurrent.futures, json, os, random, re, shutil, time
-from vlib import std, lab, common
+from vlib import std, lab, common, hbuild, coq, corr
 
 PID = "C15"
 META = {
@@ -22,7 +22,10 @@ META = {
             "lowest requested offset is 0, and REFUTED in general: on a disk hit the first buffer is advanced by "
             "lowestOffset(0) before buildRangeHeader decides to ignore the Range (complex set, failed If-Range), so the 200 "
             "body is object[R..bs) ++ object[bs-R..) -- known finding C15-fallback-200-skips-prefix, witness replayed against "
-            "the running proxy. Tie: header names, application name and HTTP_REQBUF_SZ regenerated from the code; extracted "
+            "the running proxy. Tie: header names, application name and HTTP_REQBUF_SZ regenerated from the code; the "
+            "HttpHdrRange helpers (lowestOffset, firstOffset, offsetLimitExceeded, canonize, isComplex) and the Content-Range "
+            "packer compiled from the working tree under UBSan (harness/h_rangereply.cc) are diffed against the extracted "
+            "model on generated headers; extracted "
             "model diffed against the real squid binary (memory hits, disk hits, misses with range_offset_limit none / 0 / "
             "5000) on random range sets; every 206 body is parsed (single and multipart/byteranges) and compared with the "
             "origin object by an independent oracle.",
@@ -466,6 +469,87 @@ def oracle(s, obs):
     return None
 
 
+# ------------------------------------------------------------------ unit side: HttpHdrRange / Content-Range pieces
+LINK = ("tests/stub_HttpHeader.o tests/stub_HttpReply.o tests/stub_MemBuf.o String.o "
+        "tests/stub_cbdata.o tests/stub_debug.o tests/stub_libhttp.o tests/stub_libmem.o sbuf/libsbuf.la "
+        "base/libbase.la ../compat/libcompatsquid.la").split()
+FRESH = ["src/HttpHdrRange.cc", "src/HttpHdrContRange.cc", "src/HttpHeaderTools.cc", "src/StrList.cc"]
+
+
+def impl():
+    return hbuild.build("h_rangereply", "h_rangereply.cc", fresh=FRESH, link=LINK, sanitize="ubsan")
+
+
+def prebuild():
+    impl()
+
+
+def gen_unit_cases(rng, n):
+    out = []
+    for _ in range(n):
+        clen = rng.choice(SIZES) if rng.random() < 0.6 else rng.randrange(0, 12000)
+        text = gen_range_text(rng, clen)
+        limit = rng.choice([0, -1, -1, LIMIT, 1, 10, 100, clen, max(clen - 1, 1), 4096])
+        out.append("rr.unit %s %d %d" % (hexs(text), clen, limit))
+    return out
+
+
+def unit_oracle(case, out):
+    """HttpHdrRange::canonize/isComplex/offsetLimitExceeded and the Content-Range packer against the RFC reading above"""
+    _, h, clen, limit = case.split()
+    text, clen, limit = bytes.fromhex(h).decode("latin1") if h != "-" else "", int(clen), int(limit)
+    specs = parse_range_header(text)
+    if specs is None:
+        return None if out == "none" else ("oracle:unit-invalid-range-accepted", "an invalid Range header was parsed: " + out[:80])
+    if out == "none" and any(int(x) > 2 ** 63 - 1 for x in re.findall(r"\d+", text)):
+        return None                      # positions beyond int64: the header is ignored (C28's territory)
+    m = re.fullmatch(r"low=(-?\d+) first=(-?\d+) lim=([01]) \| canon=([01]) n=(\d+) complex=([01]) first=(-?\d+) lim=([01]) cr=(\S*)", out)
+    if not m:
+        return ("oracle:unit-no-answer", "unexpected answer " + out[:120])
+    sat = satisfiable(specs, clen)
+    want_cr = ",".join(hexs("bytes %d-%d/%d" % (a, b, clen)) for a, b in sat)
+    if int(m.group(5)) != len(sat) or m.group(4) != ("1" if sat else "0"):
+        return ("oracle:unit-canonize", "%d canonical specs, %d satisfiable requested ranges" % (int(m.group(5)), len(sat)))
+    if m.group(9) != want_cr:
+        return ("oracle:unit-content-range", "Content-Range texts differ from the satisfiable requested ranges")
+    if m.group(6) != ("1" if is_fallback_prone(text, clen) else "0"):
+        return ("oracle:unit-complex", "isComplex() = %s" % m.group(6))
+    want_lim = 1 if limit == 0 else 0 if limit == -1 else 1 if not sat else (0 if limit >= min(a for a, _ in sat) else 1)
+    if int(m.group(8)) != want_lim:
+        return ("oracle:unit-offset-limit", "offsetLimitExceeded(%d) = %s" % (limit, m.group(8)))
+    return None
+
+
+def unit_stage(res, tier):
+    try:
+        exe = impl()
+    except hbuild.BuildError as ex:
+        res.fail("build", "%s: harness no longer builds against /repo's working tree: %s" % (PID, str(ex)[-1200:]),
+                 {"no_failing_input_found": True, "broken": "harness build h_rangereply", "detail": str(ex)[-3000:]})
+        return
+    runner = coq.build_runner("rangereply")
+    rng = random.Random(common.seed() * 1000003 + 1515)
+    cases = std.load_corpus(PID) + gen_unit_cases(rng, 6000 if tier == "quick" else 120000)
+    a = corr.run_lines(exe, cases)
+    b = corr.run_lines(runner, cases)
+    found = 0
+    for c, o in zip(cases, a):
+        res.count_case(c, nontrivial=(" n=0 " not in o and o != "none"), kind="unit:" + ("none" if o == "none" else "complex" if "complex=1" in o else "plain"))
+        v = unit_oracle(c, o)
+        if v and res.fail(v[0], "%s on input `%s`: implementation answered `%s`: %s" % (PID, c[:300], o[:300], v[1]),
+                          {"case": c, "impl": o, "oracle": v[1], "signature": v[0]}):
+            found += 1
+    dis = corr.diff(cases, a, b)
+    if dis and not found:
+        k, c, x, y = dis[0]
+        res.fail("corr:rr.unit", "model and implementation disagree on %d unit cases (first: `%s` impl=`%s` model=`%s`)"
+                 % (len(dis), c[:300], x[:200], y[:200]),
+                 {"no_failing_input_found": True, "broken": "correspondence RangereplyModel (HttpHdrRange helpers) vs h_rangereply",
+                  "case": c, "impl": x, "model": y, "disagreements": len(dis)})
+    res.extra["unit_cases"] = len(cases)
+    res.extra["unit_disagreements"] = len(dis)
+
+
 def kind(s, o):
     return s["mode"] + ":" + o.split(" ")[0] + (":multi" if " cr=- " in o and o.startswith("206") else "")
 
@@ -479,6 +563,7 @@ def run(res, tier):
                 "squid as memory hit, disk hit (cache_dir ufs, cache_mem 0), miss with range_offset_limit none, 0 and 5000 "
                 "(origin body in several TCP segments); non-trivial = squid answered 206")
     try:
+        unit_stage(res, tier)
         std.run_lab(res, PID, tier, area="rangereply", gens=["rangereply", "hdrtable"], gen_scenarios=gen_scenarios,
                     run_impl=run_impl, to_case=to_case, oracle=oracle,
                     corr_name="RangereplyModel.reply_run vs the running squid",
